@@ -21,13 +21,27 @@ def tok_create(k, t, r, tx="N", rx="N"):
     return "C%s:%s:%s:%s:%s" % (k, t, r, tx, rx)
 
 
-def parse(tok):
+def unhexf(h):
+    """time value of a float case: 16 hex digits = the binary64 bit pattern"""
+    import struct
+    return struct.unpack(">d", bytes.fromhex(h))[0]
+
+
+def hexf(x):
+    import struct
+    return struct.pack(">d", float(x)).hex()
+
+
+def parse(tok, flt=False):
     k = tok[0]
     if k == "C":
         kind = tok[1]
         t, r, tx, rx = tok[3:].split(":")
         f = lambda s: None if s == "N" else int(s)
-        return "C", (kind, f(t), f(r), f(tx), f(rx))
+        g = (lambda s: None if s == "N" else unhexf(s)) if flt else f
+        return "C", (kind, g(t), g(r), f(tx), f(rx))
+    if k == "A" and flt:
+        return "A", unhexf(tok[1:])
     if k in "STYM":
         return k, (None if tok[1:] == "N" else int(tok[1:]))
     if k in "AR":
@@ -52,16 +66,20 @@ class CHECK(core.Check):
             "finish/fail/run, restarts; three message alphabets, each with falsy members (base Packets incl. an empty one; "
             "Packets that are empty until packed; plain payloads 0 / falsy objects / ints on a stack double) at every "
             "position (constructor tx, start, mid-exchange, before a redo); ~6% malformed (start/send without a message, calls before create). "
-            "Bounded-exhaustive: every (timeout, redo) pair of the 9x9 grid x 3 classes x 4 fixed schedules. "
+            "every fourth random case on a decimal (non-dyadic) grid through the Float instantiation. Bounded-exhaustive: every (timeout, redo) pair of the 9x9 grid x 3 classes x 4 fixed schedules. "
             "Non-trivial = at least 3 process calls and at least one retransmission or one timeout failure; "
             "distinct by call sequence.")
     TRUSTED = ["correspondence: real exchanging.Exchange/Exchanger/Exchangent on stacking.Stack (tree + "
                "fixes/D22-exchange-redotimeout-nameerror.patch) vs Lean driver 'exchange' on the same calls; compared per "
                "call: WHICH messages (by identity) were appended to stack.txPkts / stack.txMsgs, exception class, .done, .failed",
-               "time on the grid 1/1024 s (CPython float arithmetic exact there); IEEE rounding on other grids not modelled",
+               "time on the grid 1/1024 s (CPython float arithmetic exact there) for 3/4 of the cases; every fourth random case "
+               "uses decimal times (0.1, 0.3, 0.7, 1/3, class defaults incl. Exchangent 0.5/0.1) passed as binary64 bit "
+               "patterns and run through the Float instantiation of the definitions (Lean Float = IEEE binary64 = CPython float)",
                "a device is always given (process()/start() format self.device.name eagerly)"]
-    PARTIAL = ["exact time only: schedules off the dyadic grid (e.g. Exchangent's own RedoTimeout = 0.1) depend on float "
-               "rounding and are outside the model",
+    PARTIAL = ["schedules off the dyadic grid (e.g. Exchangent's own RedoTimeout = 0.1): the theorems are about exact time; "
+               "there the Float (binary64) instantiation of the same generic definitions (gstep/grun, proved equal to the "
+               "model at Int: C38_generic_definitions_at_int_are_the_model) is compared bit for bit with the code, and the "
+               "oracle makes no claim within 1e-9 s of a boundary (IEEE rounding decides there)",
                "process() on an exchange without a device raises AttributeError from the log call's format arguments; "
                "not part of the property, not modelled"]
     TECHNIQUE = ("Lean 4 theorems (invariant of the running phase by induction over the call sequence; refinement to the "
@@ -74,7 +92,7 @@ class CHECK(core.Check):
                   "tick it retransmits at exactly the stamps s+R, s+2R, ...), C38_fails_iff_timeout_first, "
                   "C38_timeout_takes_precedence, C38_no_redo_after_timeout, C38_timeout_zero_never_expires, "
                   "C38_timers_well_formed_always (the hypothesis is an invariant of every call), C38_start_exchanger, "
-                  "C38_started_exchanger_schedule (end to end from create+start). C38_counterexample_asis: the unpatched "
+                  "C38_started_exchanger_schedule (end to end from create+start), C38_generic_definitions_at_int_are_the_model (the generic-time definitions the driver runs on floats are the model at Int). C38_counterexample_asis: the unpatched "
                   "constructor raises NameError whenever a redo timeout is given (D22, repaired by the fix patch).")
     LEVEL_NOTE = ("Trusted: Lean kernel; axioms propext, Classical.choice, Quot.sound; the hand transcription of exchanging.py "
                   "and StoreTimer, validated by the correspondence runs (9x9 settings grid x classes x schedules, plus random "
@@ -147,9 +165,34 @@ class CHECK(core.Check):
                 ops.append(rng.choice(["TN", "YN", "MN", tok_create(kind, T, R)]))
         return {"ops": ops, "msgs": rng.choice(["packet", "lazy", "plain"]), "share": rng.random() < 0.4}
 
+    def _float_case(self, rng):
+        """decimal (non-dyadic) settings and schedules: the classes as they are (Exchangent.RedoTimeout = 0.1)"""
+        kind = rng.choice("xxxne")
+        dec = [0.1, 0.2, 0.3, 0.7, 1.1, 0.05, 2.0, 0.5, 0.15, 1.0 / 3.0]
+        T = rng.choice(["N", "N", 0.0] + dec + [x * 3 for x in dec])
+        R = rng.choice(["N", "N", 0.0] + dec)
+        h = lambda x: x if x == "N" else hexf(x)
+        ops = []
+        if rng.random() < 0.3:
+            ops.append("A" + hexf(rng.choice(dec) * rng.randrange(1, 50)))
+        ops.append("C%s:%s:%s:%s:N" % (kind, h(T), h(R), rng.choice(["N", "1"])))
+        ops.append({"x": "S1", "n": "S7", "e": "SN"}[kind])
+        step = rng.choice(dec[:6] + [0.01, 0.025])
+        mid = 1
+        for _ in range(rng.randrange(5, 61)):
+            ops.append("A" + hexf(step if rng.random() < 0.85 else rng.choice(dec)))
+            ops.append("P")
+            x = rng.random()
+            if x < 0.06:
+                mid += 1
+                ops.append(rng.choice("TTYM") + str(mid))
+            elif x < 0.08:
+                ops.append("S%d" % mid if kind == "x" else "SN" if kind == "e" else "S3")
+        return {"ops": ops, "msgs": rng.choice(["packet", "lazy", "plain"]), "share": rng.random() < 0.4, "float": True}
+
     def generate(self, rng, n, tier):
-        for _ in range(n):
-            yield self._case(rng)
+        for i in range(n):
+            yield self._float_case(rng) if i % 4 == 3 else self._case(rng)
 
     def search(self, rng, n, tier):
         for _ in range(n):
@@ -176,7 +219,10 @@ class CHECK(core.Check):
         class Exchangent125(exchanging.Exchangent):
             RedoTimeout = 0.125
 
-        classes = {"e": exchanging.Exchange, "x": exchanging.Exchanger, "n": Exchangent125}
+        flt = bool(case.get("float"))      # decimal (non-dyadic) times: the classes as they are, float arithmetic
+        unit = 1.0 if flt else TICK
+        classes = {"e": exchanging.Exchange, "x": exchanging.Exchanger,
+                   "n": exchanging.Exchangent if flt else Exchangent125}
         # three alphabets of messages, all with FALSY members (the code must test `is not None`, not truthiness):
         #   packet: real Stack, base Packets; id 0 is an empty Packet (len 0)
         #   lazy:   real Stack, Packets that are empty until the stack packs them on transmit
@@ -233,7 +279,7 @@ class CHECK(core.Check):
         ex, kind, out = None, None, []
         for tok in case["ops"]:
             try:
-                k, arg = parse(tok)
+                k, arg = parse(tok, flt)
             except Exception:
                 return ["bad-op"]
             mark, markm = len(outbox), len(msgbox)
@@ -243,14 +289,14 @@ class CHECK(core.Check):
                     kind, t, r, tx, rx = arg
                     kw = {}
                     if t is not None:
-                        kw["timeout"] = t / TICK
+                        kw["timeout"] = t / unit
                     if r is not None:
-                        kw["redoTimeout"] = r / TICK
+                        kw["redoTimeout"] = r / unit
                     ex = None
                     ex = classes[kind](stack=stack, device=device, tx=pkt(tx),
                                        rx=(None if rx is None else ("rx", rx)), **kw)
                 elif k == "A":
-                    stack.stamper.advance(arg / TICK)
+                    stack.stamper.advance(arg / unit)
                 elif ex is None:
                     err = "ERR NoExchange"
                 elif k == "S":
@@ -287,7 +333,7 @@ class CHECK(core.Check):
 
     # ---- model
     def requests(self, case):
-        return ["run repaired " + " ".join(case["ops"])]
+        return [("runf" if case.get("float") else "run") + " repaired " + " ".join(case["ops"])]
 
     def model_post(self, case, replies):
         return replies[0].split(" | ")
@@ -299,6 +345,14 @@ class CHECK(core.Check):
         ops = case["ops"]
         if len(out) != len(ops):
             return "implementation answered %d of %d calls" % (len(out), len(ops))
+        from fractions import Fraction
+        flt = bool(case.get("float"))
+        # float cases: the oracle reasons in exact rationals about the exact values of the floats and makes no claim
+        # about a process call closer than EPS to a boundary (there the outcome is a matter of IEEE rounding, which
+        # the correspondence with the Float instantiation of the model pins bit for bit)
+        EPS = Fraction(1, 10 ** 9)
+        DEFS = ({"e": (Fraction(2), Fraction(1, 2)), "x": (Fraction(2), Fraction(1, 2)),
+                 "n": (Fraction(1, 2), Fraction(0.1))} if flt else DEF)
         now = 0
         have = False           # an exchange exists
         kind = T = R = None
@@ -308,7 +362,12 @@ class CHECK(core.Check):
         for tok, line in zip(ops, out):
             if "!rebound" in line:
                 return "after %s the stack no longer uses the queue objects the caller holds" % tok
-            k, arg = parse(tok)
+            k, arg = parse(tok, flt)
+            if flt and k == "A":
+                arg = Fraction(arg)
+            if flt and k == "C":
+                arg = (arg[0], None if arg[1] is None else Fraction(arg[1]), None if arg[2] is None else Fraction(arg[2]),
+                       arg[3], arg[4])
             q, rest = line.split(" ", 1)
             queued = [] if q == "-" else [int(x) for x in q.split(",")]
             err = None if rest.startswith("ok") else rest.split(" ")[1]
@@ -319,8 +378,8 @@ class CHECK(core.Check):
                 if err is not None:
                     return "creating %s with timeout=%s redoTimeout=%s raised %s" % (kind, t, r, err)
                 have = True
-                T = DEF[kind][0] if t is None else t
-                R = DEF[kind][1] if r is None else r
+                T = DEFS[kind][0] if t is None else t
+                R = DEFS[kind][1] if r is None else r
                 t0 = last = abs(now)
                 latest, started, done = tx, False, False
                 if failed_flag or done_flag:
@@ -357,6 +416,16 @@ class CHECK(core.Check):
                     continue
                 if err is not None:
                     return "process raised %s" % err
+                if flt and ((t0 is not None and T > 0 and abs(now - (t0 + T)) < EPS) or
+                            (last is not None and R > 0 and abs(now - (last + R)) < EPS)):
+                    # on a boundary up to rounding: no claim; what the call did decides how we go on
+                    if failed_flag:
+                        done = True
+                    if queued:
+                        last = now
+                    elif last is not None and R > 0 and abs(now - (last + R)) < EPS:
+                        last = None
+                    continue
                 timed_out = T > 0 and t0 is not None and now >= t0 + T
                 if T <= 0 and failed_flag:
                     return "timeout %s <= 0 but the exchange failed at %s" % (T, now)
@@ -399,8 +468,12 @@ class CHECK(core.Check):
             return "no-create"
         kind = c[1]
         t, r = c[3:].split(":")[:2]
-        cls = lambda s: "dflt" if s == "N" else "zero" if int(s) == 0 else "neg" if int(s) < 0 else "pos"
-        tags = [kind, "T" + cls(t), "R" + cls(r)]
+        if case.get("float"):
+            val = lambda s: unhexf(s)
+        else:
+            val = int
+        cls = lambda s: "dflt" if s == "N" else "zero" if val(s) == 0 else "neg" if val(s) < 0 else "pos"
+        tags = [kind, "T" + cls(t), "R" + cls(r)] + (["float"] if case.get("float") else [])
         if any(l.endswith("f=1") for l in out):
             tags.append("failed")
         if any(tk == "P" and not l.startswith("-") for tk, l in zip(case["ops"], out)):
